@@ -1446,3 +1446,8 @@ VARIANTS += [
     V('C14-M33', 'M', ('C14',), SP, 'Server._callmethod', r"(msg = \('#ERROR', self\._wrap_user_exc\(e\)\)\n)\s+return msg\n", r"\1", ('C14-14',), note='seeded C14-f6m1 shape'),
     V('C13-M32', 'M', ('C13', 'C14'), SP, 'Server.decref', r"(\n(\s+))super\(\)\.decref\(c, ident\)\n", r"\1obj = self.id_to_obj[ident][0]\1super().decref(c, ident)\1if ident not in self.id_to_refcount:\1    obj.release()\n", ('C13-5',), note='seeded C13-f6m2 shape'),
 ]
+
+VARIANTS += [
+    V('C10-M32', 'M', ('C10',), TE, 'Fork.__next__', r"(\n(\s+))if not self\.instream_lock\.acquire\(timeout=0\.1\):\n\s+continue\n(\s+)try:\n", r"\1try:\n\2    if not self.instream_lock.acquire(timeout=0.1):\n\2        continue\n", ('C10-1',), note='seeded C10-f6m2 shape: the failed acquire is released'),
+    V('C10-M33', 'M', ('C10',), TE, 'Fork.__next__', r"(\n(\s+))if self\.head\.value is None:\n(\s+)while self\.head\.value is None:", r"\1if getattr(self.head, 'exhausted', False):\1    raise StopIteration\1if self.head.value is None:\n\3while self.head.value is None:", ('C10-10',), note='seeded C10-f6m1 shape'),
+]
